@@ -63,6 +63,7 @@ type c01ref struct {
 	min      int32
 	max      int32
 	explicit bool
+	Discard  bool `json:"discard,omitempty"`
 }
 
 type c01case struct {
@@ -160,8 +161,14 @@ func c01gen(r *rand.Rand, idx int, scratch string) *c01case {
 			}
 			rr, ex := parseRangeModel(ref.Level)
 			ref.min, ref.max, ref.explicit = rr.min, rr.max, ex
-			c.Refs = append(c.Refs, ref)
 			cfg["appender."+ref.Sink+".type"] = "VRec"
+			if n > 1 && r.IntN(6) == 0 {
+				// the built-in Discard appender as one of the references (it takes part in the chaining rule like any
+				// other reference; what it receives cannot be observed and is not judged)
+				ref.Discard = true
+				cfg["appender."+ref.Sink+".type"] = "Discard"
+			}
+			c.Refs = append(c.Refs, ref)
 		}
 		if n == 1 && r.IntN(2) == 0 {
 			cfg[lk("appenderRef.ref")] = c.Refs[0].Sink
@@ -235,7 +242,7 @@ func (c *c01case) expectSinks(L int32) []string {
 					max = best
 				}
 			}
-			if L >= ref.min && L < max {
+			if L >= ref.min && L < max && !ref.Discard {
 				out = append(out, ref.Sink)
 			}
 		}
